@@ -108,6 +108,13 @@ def monitor_c02(ctx):
         pays.append({'line': proggen.eval_case(rng)[0]})
     pays.append({'line': gens2.eval_line('dict[0]')})
     pays.append({'line': gens2.eval_line('x = dict["a"]; [x]')})
+    # error paths of the library itself (regex timeout on a catastrophic pattern, invalid patterns, arithmetic signals, deep
+    # recursion): reporting an error must not do I/O either
+    for src in ['match("aaaaaaaaaaaaaaaaaaaaaaaaaaaaaaaaaaaa!", "(a+)+$")', 'match_all("aaaaaaaaaaaaaaaaaaaaaaaaaaaaaaaaaaa!", "(a*)*b")',
+                'match_groups("aaaaaaaaaaaaaaaaaaaaaaaaaaaaaaaaaaaa!", "(a|aa)+$")', 'match("a", "(")', 'match_all("a", "[")', 'match("a", "a", 5)',
+                'try_apply(w => match("aaaaaaaaaaaaaaaaaaaaaaaaaaaaaaaaaaaa!", "(a+)+$"), 0); 1', '1 / 0', '10 ** 999999 * 10 ** 999999',
+                'f = n => f(n + 1); f(0)', 'int("x")', 'undefined_name', 'pop([])', '{"a": 1}["b"]', 'round(1, 5000)', 'float("1e400")']:
+        pays.append({'line': gens2.eval_line(src, budget=100000)})
     return _run('c02', 'c02', pays, 'every builtin x argument shapes + random programs: deep type walk of every node result, the result and '
                 'the final names; Python audit events (open/os/subprocess/socket/import/exec/compile/ctypes) during eval')
 
@@ -131,7 +138,14 @@ def monitor_c03(ctx):
     b = _run('c03_adders', 'c03_adders', [{'stmts': [['push(c, 1)', ['list']], ['c.push(1)', ['list']], ['insert(c, 0, 1)', ['list']], ['c[0] = 1', ['list', 'dict']],
                                                       ['c["k"] = 1', ['dict']], ['c[0] += 1', ['list']], ['c["0"] += 1', ['dict']],
                                                       ['push(c, 1, 2, 3)', []], ['c | push(1)', ['list']], ['c.push(1, 2)', []],
-                                                      ['insert(c, 0, 1, 2)', []], ['c | push(1, 2, 3, 4, 5)', []]]}],
+                                                      ['insert(c, 0, 1, 2)', []], ['c | push(1, 2, 3, 4, 5)', []],
+                                                      # a new key through the compound form; the adders reached under another name, as a value, via a host callback
+                                                      ['c["new"] += 1', ['dict']], ['c["new"] -= 1', ['dict']], ['c["new"] *= 2', ['dict']],
+                                                      ['p = push; p(c, 1)', ['list']], ['apply(push, c, 1)', ['list']], ['apply(f => f(c, 1), push)', ['list']],
+                                                      ['reduce([c, 1], push)', ['list']], ['q = insert; q(c, 0, 1)', ['list']], ['map([c], v => push(v, 1))', ['list']],
+                                                      ['s = __setitem__; s(c, 0, 1)', ['list']], ['s = __setitem__; s(c, "k", 1)', ['dict']],
+                                                      ['apply(__setitem_with_op__, c, "0", "+=", 1)', ['dict']], ['try_apply(push, c, 1); push(c, 1)', ['list']],
+                                                      ['sorted([c], v => push(v, 1))', ['list']], ['filter([c], v => push(v, 1))', ['list']]]}],
              'each element-adding operation on lists and dicts of exactly 10000 and 10001 elements: ParserError and container unchanged')
     return _merge('c03', [a, b])
 
@@ -157,6 +171,12 @@ ADVERSARIAL = [('(a+)+$', "('a' * 28 + 'b')"), ('(a|aa)+$', "('a' * 40 + 'b')"),
                ('(?:fox){e<=3}', "('the quick brown f0x ' * 2000)"), ('.*.*.*.*x', "('y' * 400)"), ('[a-z]+', "('hello world ' * 8000)"),
                ('\\d+', "('1' * 100000)"), ('^(\\S+\\s+\\S+\\s+\\S+\\s+\\S+\\s+\\S+\\s+\\S+\\s+\\S+\\s+\\S+\\s+\\S+\\s+\\S+\\s+\\S+\\s+\\S+\\s+\\S+)$', "('a b c d e f g h i j k l m')"),
                ('((a{100}){100}){400}', "('a')")]
+
+
+# patterns that are slow to COMPILE (tens of milliseconds: long keyword alternations) and then backtrack catastrophically:
+# whatever the library does with the compile time, the match phase must stay under its timeout
+_BIGALT = '|'.join('kw%04d' % i for i in range(3000))
+ADVERSARIAL += [('(?:%s)|(a+)+$' % _BIGALT, "('a' * 32 + '!')"), ('(?:%s)x|(a|aa)+$' % _BIGALT, "('a' * 45 + '!')")]
 
 
 def monitor_c05(ctx):
@@ -289,13 +309,16 @@ def monitor_c13(ctx):
     fn = lambda v: {'$': 'fn', 'v': v}
     shapes = [[3, 1, 2], [dec('1.5'), dec('2')], [fl(0.1), fl(0.2), fl(2.5)], ['b', 'a'], [[1, 2], [3]], [[3], [1, 2]], {'$': 'dict', 'v': [['a', 1], ['b', [1, 2]]]},
               {'$': 'dict', 'v': [['k', {'$': 'dict', 'v': [['z', 1]]}]]}, 'abc', 'a,b', 5, dec('2.5'), fl(0.2), None, True, [], {'$': 'dict', 'v': []},
-              [None, 'a', 1], {'$': 'tuple', 'v': [1, [2]]}, [[fl(1.5)], [fl(0.1)]]]
+              [None, 'a', 1], {'$': 'tuple', 'v': [1, [2]]}, [[fl(1.5)], [fl(0.1)]],
+              {'$': 'defaultdict', 'v': [['a', [1]]]}, {'$': 'missingdict', 'v': [['a', 1]]}]
     argsets = [[s] for s in shapes]
     for s in shapes[:9]:
         for t in [fn('ident'), fn('const'), fn('neg'), fn('first'), 0, 1, 'a', ',', fl(0.2), dec('1'), [1], None, True, fn('len')]:
             argsets.append([s, t])
     for s in shapes[:7]:
         argsets += [[s, fn('ident'), True], [s, None, True], [s, 'a', 'b'], [s, 0, 5], [s, fn('first'), False]]
+    for s in shapes[-2:]:
+        argsets += [[s, 'zz'], [s, 'zz', 5], [s, 'a'], [s, 0], [s, fn('ident')]]
     chunks = [names[i:i + 3] for i in range(0, len(names), 3)]
     pays = [{'names': ch, 'argsets': argsets} for ch in chunks]
     return _run('c13', 'c13', pays, 'every non-mutator of FUNCTIONS called directly with lists / dicts / nested / host-float / tuple / str arguments, '
@@ -370,7 +393,10 @@ def monitor_c16(ctx):
             s = ''.join(chr(r.choice([r.randrange(32, 127), r.randrange(0x20, 0x3000), r.randrange(0, 32)])) for _ in range(r.randint(1, 10)))
         pays.append({'src': s, 'apis': ['parse', 'names', 'eval']})
     planted = ['undefined_var', 'nofn(1)', 'u += 1', '[1,2][5]', '{"a": 1}["b"]', 'pop([])', '"abc"[7]', 'items({"a": 1})[0][2]', 'enumerate([1])[0][5]',
-               'for', '1 $ 2', '1 +', 'f(', 'x = [0]\nx[5]', 'd = {}\nd["k"]']
+               'for', '1 $ 2', '1 +', 'f(', 'x = [0]\nx[5]', 'd = {}\nd["k"]',
+               # every spelling of a name: %...% lexemes (with blanks, dots, operators inside), names next to keywords
+               '%undef%', '%a b%', '%x.y%', '%a+b%', '%undef%(1)', '%q% += 1', 'andy', 'not_x', 'None_', '_u', 'x1.y2(3)', '1 | nofn', '2 | nofn(2)',
+               'del nodict["k"]', 'nolist[0] = 1', 'nolist[0] += 1', '[][0]', '""[0]', '{}["k"]', 'keys({})[0]', '[1,2,3][1:2][4]']
     ctxs = ['{E}', '[1, {E}]', 'len({E})', '{{"k": {E}}}', '{{{E}: 1}}', '[1,2,3][{E}:]', '[1,2,3][{E}]', 'apply(v => {E}, 1)', '{E} if True else 1',
             '1 if {E} else 2', 'x = {E}', 'x = [0]\nx[0] = {E}', 'x = [0]\nx[0] += {E}', 'x = 1\nx += {E}', '-{E}', 'not {E}', '1 + {E}',
             'map([1], v => {E})', 'str({E})', 'sorted([2, 1], v => {E})']
@@ -382,8 +408,19 @@ def monitor_c16(ctx):
             if 'apply' in src:
                 continue
             pays.append({'src': src, 'apis': ['eval'], 'planted': True})
+    # D17 (finding): the READ of a missing key / index that a compound item assignment performs
+    for src in ['x = [1]\nx[5] += 1', 'd = {}\nd["k"] += 1', 'd = {"a": 1}\nd["b"] -= 1', 'x = []\nx[0] *= 2']:
+        pays.append({'src': src, 'apis': ['eval'], 'planted': True, 'sig': 'D17:compound-item-missing'})
     for b in (1, 2, 3, 7):
         pays.append({'src': 'f = n => f(n + 1)\nf(0)', 'apis': ['eval'], 'planted': True, 'budget': b})
+        pays.append({'src': 'map([1, 2, 3], v => v * (2 + 3))', 'apis': ['eval'], 'planted': True, 'budget': b})
+        pays.append({'src': 'try_it = [1, 2] | sorted(v => 0 - v)', 'apis': ['eval'], 'planted': True, 'budget': b})
+    # exceeding the size cap, through every element-adding form, at every syntactic position a call can stand in
+    for add in ['push(c, 1)', 'c.push(1)', 'c | push(1)', 'insert(c, 0, 1)', 'c.insert(5, 1)']:
+        for c in ['{E}', '[1, {E}]', 'len({E})', 'x = {E}', '({E}) if True else 1', 'map([1], v => {E})', 'str({E})', '1 + ({E})', 'not ({E})']:
+            pays.append({'src': c.replace('{E}', add), 'apis': ['eval'], 'planted': True, 'full': True, 'budget': 1000})
+    for st in ['c[0] = 1', 'c[10000] = 1', 'd["new"] = 1', 'd["0"] = 1', 'c[0] += 1', 'd["0"] += 1', 'd["new"] += 1', 'x = c\nx.push(1)', 'x = d\nx["n"] = 1']:
+        pays.append({'src': st, 'apis': ['eval'], 'planted': True, 'full': True, 'budget': 100000})
     return _run('c16', 'c16', pays, 'arbitrary Unicode strings (control characters, unnamed / private-use / surrogate code points), truncations at every '
                 'character, deep nesting, erroneous programs through parse / list_names / eval: only ParserError for parse and list_names, only '
                 'Exceptions for eval, a dead worker is a crash; each listed failure planted at 20 syntactic positions must be a ParserError')
